@@ -17,9 +17,11 @@ type Sched struct {
 	yields uint64
 	max    uint64
 
-	rng      *Rand
-	permille int
-	boost    int // permille used at fault yields
+	rng         *Rand
+	ppm         int // switch probability per million yields
+	boost       int // per-million probability used at fault yields
+	maxSwitches int
+	running     bool
 
 	useExplicit bool
 	explicit    []Switch
@@ -43,12 +45,13 @@ type Sched struct {
 func NewSched(sc *Scenario, envs []*Env, st *Stats, maxYields uint64) *Sched {
 	s := &Sched{
 		envs: envs, stats: st, max: maxYields,
-		rng:      ForkSeed(sc.Seed, "sched"),
-		permille: sc.SwitchPermille,
-		finished: make(chan struct{}),
+		rng:         ForkSeed(sc.Seed, "sched"),
+		ppm:         sc.SwitchPPM,
+		finished:    make(chan struct{}),
+		maxSwitches: 30000,
 	}
-	s.boost = 500
-	if s.permille == 0 {
+	s.boost = 500000
+	if s.ppm == 0 {
 		s.boost = 0
 	}
 	if sc.Sched != nil {
@@ -69,9 +72,10 @@ func NewSched(sc *Scenario, envs []*Env, st *Stats, maxYields uint64) *Sched {
 func (s *Sched) Run(tasks []func(e *Env)) {
 	activeSched = s
 	activeEnv = nil
+	s.running = true
 	setHook(libHook)
 	setPerm(libPerm)
-	defer Deactivate()
+	defer func() { s.running = false; Deactivate() }()
 
 	for i := range tasks {
 		go func(i int) {
@@ -148,12 +152,12 @@ func (s *Sched) yield(e *Env, site string, isBoost bool) {
 			to = s.explicit[s.ei].To
 			s.ei++
 		}
-	} else if s.permille > 0 {
-		p := s.permille
+	} else if s.ppm > 0 && len(s.Recorded) < s.maxSwitches {
+		p := s.ppm
 		if isBoost && s.boost > p {
 			p = s.boost
 		}
-		if s.rng.Intn(1000) < p {
+		if s.rng.Intn(1000000) < p {
 			if others := s.runnableOther(); len(others) > 0 {
 				to = others[s.rng.Intn(len(others))]
 			}
